@@ -70,13 +70,17 @@ def pair_obs(eng, A, B, only=None, exclude=()):
     return obs
 
 
-def cat_cat(eng, nr=2, nc=3, rows_date=False, ins=True, values=True, medians=False, strict=False, multi_diff=False):
+def cat_cat(eng, nr=2, nc=3, rows_date=False, ins=True, values=True, medians=False, strict=False, multi_diff=False, valueless=False):
     if medians:
         # the medians fork on the value order and on every cumulative threshold: own small scenario, concrete values
         rv, cv = [3, 1, 2][:nr], [2, 5, 1][:nc]
     else:
         rv = [eng.real("rv%d" % k) for k in range(nr)] if values else None
         cv = [eng.real("cv%d" % k) for k in range(nc)] if values else None
+    if valueless:
+        # one category of each dimension carries no numeric value (a "don't know"): scale statistics leave it out
+        rv[-1] = None
+        cv[1] = None
     rins = [S("r12", [1, 2], anchor="top"), D("rd", [2], [1])] if ins else []
     cins = [S("c13", [1, 3], anchor=2), D("cd", [1], [2, 3])] if ins else []
     if multi_diff:
@@ -112,6 +116,7 @@ def specs(tier):
 
     add("cat x cat plain", "cat_cat", dict(ins=False))
     add("cat x cat insertions + values (strictly positive counts)", "cat_cat", dict(strict=True))
+    add("cat x cat values, a value-less category on each dimension", "cat_cat", dict(nr=3, nc=3, ins=False, strict=True, valueless=True))
     add("cat x cat insertions, zero counts allowed", "cat_cat", dict(nr=2, nc=2, values=False))
     add("cat x cat medians", "cat_cat", dict(nr=2, nc=2, ins=False, medians=True), max_paths=2000)
     add("catdate x cat", "cat_cat", dict(rows_date=True, values=False))
